@@ -83,15 +83,28 @@ Ltac pos :=
   end.
 Ltac conds := repeat split; try exact I; try (apply Rgt_not_eq; unfold Rgt; pos); try pos.
 
-(* is_derive goals: H : 0 < I3 *)
+(* the same exponential written with syntactically different (field-equal) arguments *)
+Ltac exp_unify :=
+  repeat match goal with
+         | |- context [exp ?a] =>
+           match goal with
+           | |- context [exp ?b] =>
+             lazymatch a with b => fail | _ => idtac end;
+             replace (exp a) with (exp b) by (f_equal; field; conds)
+           end
+         end.
+
+
+(* is_derive goals: H : 0 < I3.  I3 stays a variable during auto_derive (which would unfold
+   t^6), then is replaced by t^6. *)
 Ltac dsolve H :=
-  let t := fresh "t" in let Ht := fresh "Ht" in
-  destruct (sixth_root _ H) as [t [Ht ->]];
+  let t := fresh "t" in let Ht := fresh "Ht" in let E := fresh "E" in
+  destruct (sixth_root _ H) as [t [Ht E]];
   unfold Rpower; auto_derive;
-  [ conds | rp_all t; try exp_pairs; field; conds ].
+  [ conds | rewrite ?E; rp_all t; try exp_unify; try exp_pairs; field; conds ].
 
 (* equalities between two tabulated expressions *)
 Ltac esolve H :=
-  let t := fresh "t" in let Ht := fresh "Ht" in
-  destruct (sixth_root _ H) as [t [Ht ->]];
-  rp_all t; try exp_pairs; field; conds.
+  let t := fresh "t" in let Ht := fresh "Ht" in let E := fresh "E" in
+  destruct (sixth_root _ H) as [t [Ht E]];
+  rewrite ?E; rp_all t; try exp_unify; try exp_pairs; field; conds.
